@@ -169,6 +169,10 @@ def get_cached(session_id: str) -> str | None:
             return None
         with open(path) as f:
             cached = f.read()
+        if "\n" in cached or "\r" in cached:
+            # Not something set_cache wrote for a one-line status: rebuild
+            log.warning("cache_not_single_line", session_id=session_id)
+            return None
         log.debug("cache_hit", session_id=session_id, age=age)
         return cached
     except FileNotFoundError:
@@ -192,7 +196,8 @@ def set_cache(session_id: str, output: str):
         log.error("cache_set_failed", session_id=session_id)
 
 
-MCP_CACHE_PATH = os.path.join(CACHE_DIR, "mcp.cache")
+# Not "*.cache": session entries are named <session_id>.cache and must not collide with it
+MCP_CACHE_PATH = os.path.join(CACHE_DIR, "mcp.list")
 MCP_LOCAL_PATH = os.path.expanduser("~/.claude/mcp.local.json")
 
 
@@ -227,7 +232,8 @@ def get_mcp_servers() -> str | None:
         mtime = os.path.getmtime(MCP_CACHE_PATH)
         age = time.time() - mtime
         with open(MCP_CACHE_PATH) as f:
-            cached = f.read().strip()
+            # One line whatever the file holds
+            cached = " ".join(f.read().split())
         log.debug("mcp_cache_read", age=age, has_cached=bool(cached))
     except FileNotFoundError:
         log.debug("mcp_cache_not_found", path=MCP_CACHE_PATH)
